@@ -75,6 +75,11 @@ type Op struct {
 	// Fail: kind of a "instfail" op: an instantiation under Name that fails in a late stage (start-trap, start-exit,
 	// start-hosterr, data-oob, missing-import).  For the registry it must be as if it never happened.
 	Fail string `json:"fail,omitempty"`
+	// Via: how a "close" is brought about: "" = CloseWithExitCode(Code); "deadline" / "cancel" = a guest call on the
+	// instance is in flight when its context reaches its deadline / is cancelled (runtime configured with
+	// WithCloseOnContextDone), which closes the instance with the exit code of that cause (= Code); the instance is
+	// then called twice more (the release of resources of such a close is deferred to the next look at the closed flag)
+	Via string `json:"via,omitempty"`
 }
 
 func (o Op) Token() string {
@@ -149,6 +154,7 @@ func newWorld(engine string) *world {
 	} else {
 		rc = wazero.NewRuntimeConfigInterpreter()
 	}
+	rc = rc.WithCloseOnContextDone(true)
 	w := &world{engine: engine, rt: wazero.NewRuntimeWithConfig(ctx, rc), mods: map[int]api.Module{},
 		ptr: map[*wasm.ModuleInstance]int{}, notes: map[int][]uint32{}, allocs: map[int]int{}, frees: map[int]int{}}
 	c, err := w.rt.CompileModule(ctx, bin)
@@ -402,6 +408,9 @@ func (w *world) do(o Op) (res rawRes) {
 		if m == nil {
 			hx.Fatal("close of unknown handle %d", o.H)
 		}
+		if o.Via != "" && !unwrap(m).Source.IsHostModule { // (a host module has no guest code that could be in flight)
+			return rawRes{s: w.closeViaContext(m, m.ExportedFunction("spin"), o)}
+		}
 		return rawRes{s: classifyErr(m.CloseWithExitCode(ctx, o.Code))}
 	case "rtclose":
 		return rawRes{s: classifyErr(w.rt.CloseWithExitCode(ctx, o.Code))}
@@ -416,6 +425,52 @@ func (w *world) do(o Op) (res rawRes) {
 	}
 	hx.Fatal("bad op %v", o)
 	return
+}
+
+// closeViaContext: see Op.Via.  Answers like CloseWithExitCode ("ok", also when the instance was closed already).
+func (w *world) closeViaContext(m api.Module, spin api.Function, o Op) string {
+	ctx := context.Background()
+	var cctx context.Context
+	var cancel context.CancelFunc
+	if o.Via == "deadline" {
+		cctx, cancel = context.WithTimeout(ctx, 3*time.Millisecond)
+	} else {
+		cctx, cancel = context.WithCancel(ctx)
+		time.AfterFunc(3*time.Millisecond, cancel)
+	}
+	defer cancel()
+	done := make(chan error, 1)
+	go func() {
+		defer func() {
+			if r := recover(); r != nil {
+				done <- fmt.Errorf("Go panic: %v", r)
+			}
+		}()
+		_, err := spin.Call(cctx)
+		done <- err
+	}()
+	select {
+	case err := <-done:
+		if err == nil {
+			return "other:endless-loop-returned-without-error"
+		}
+		var ee *sys.ExitError
+		if !errors.As(err, &ee) {
+			return "other:call-ended-by-context-done-returns:" + strings.ReplaceAll(firstLine(err.Error()), " ", "_")
+		}
+	case <-time.After(30 * time.Second):
+		return "other:call-not-ended-30s-after-its-context-was-done"
+	}
+	for i := 0; i < 2; i++ {
+		func() {
+			defer func() { recover() }()
+			m.ExportedFunction("nop").Call(ctx)
+		}()
+	}
+	if !m.IsClosed() {
+		return "other:instance-open-after-context-done-during-call"
+	}
+	return "ok"
 }
 
 func firstLine(s string) string {
@@ -489,7 +544,14 @@ func genSeq(r *rand.Rand, n int) []Op {
 		case x < 52:
 			ops = append(ops, Op{Kind: "look", Name: r.Intn(4)})
 		case x < 76:
-			ops = append(ops, Op{Kind: "close", H: -1 - r.Intn(1000), Code: uint32(r.Intn(4))}) // H<0: chosen among live handles at run time
+			op := Op{Kind: "close", H: -1 - r.Intn(1000), Code: uint32(r.Intn(4))} // H<0: chosen among live handles at run time
+			switch r.Intn(6) {
+			case 0:
+				op.Via, op.Code = "deadline", sys.ExitCodeDeadlineExceeded
+			case 1:
+				op.Via, op.Code = "cancel", sys.ExitCodeContextCanceled
+			}
+			ops = append(ops, op)
 		case x < 82:
 			ops = append(ops, Op{Kind: "comp"})
 		case x < 88:
@@ -1135,6 +1197,8 @@ func buildBinary(salt int32) []byte {
 	m.Memory(1, &one, false, "memory")
 	m.AddFunc(wb.Func{Params: []byte{wb.I32}, Results: []byte{wb.I32}, Export: "id",
 		Body: wb.Cat(wb.I32Const(salt), wb.Op(wasm.OpcodeDrop), wb.LocalGet(0))})
+	m.AddFunc(wb.Func{Export: "spin", Body: wb.Op(wasm.OpcodeLoop, 0x40, wasm.OpcodeBr, 0, wasm.OpcodeEnd)})
+	m.AddFunc(wb.Func{Export: "nop"})
 	return m.Bytes()
 }
 
